@@ -344,6 +344,8 @@ def run_tables(ctx, cases, exact, origin, style_rng):
         ctx.evaluations += max(1, len(impl))
         oracle_table(ctx, case, impl, origin)
         ctx.count(f"tables_{origin}")
+        if 0.0 <= case[1] <= 1.0 and case[2] <= case[3] and all(case[2] <= r[3] <= case[3] for r in case[5]):
+            ctx.count("tables_satisfying_theorem_hypotheses")
         ctx.count(f"groups_{MODE_NAME[case[0]]}", len(impl))
         if not impl:
             ctx.count("tables_without_report")
@@ -477,7 +479,15 @@ CORPUS = [
 ]
 
 
+def _stage(ctx, name, t0):
+    import time
+    ctx.extra.setdefault("stage_seconds", {})[name] = round(time.time() - t0, 1)
+    return time.time()
+
+
 def run(ctx):
+    import time
+    t = time.time()
     ctx.rule = ("(a) float grid: every triple (f, gap, ordering of the two rates) with f = k/1000, k = 0..1000, "
                 "gap = 0..2000 through the real calculate_start_date/calculate_end_date, plus seeded random and "
                 "adversarial doubles x all gaps; non-trivial = gap x f is not a whole number (rounding decides), "
@@ -490,6 +500,7 @@ def run(ctx):
                 "(gap, rate ordering))")
     ctx.nontrivial = _Keys()
     core.lean_stage(ctx, MODULE, FILE, drivers=["drv_window"])
+    t = _stage(ctx, "lean_build_and_audit", t)
     check_constant(ctx)
     rng = ctx.rng
 
@@ -499,15 +510,18 @@ def run(ctx):
     ctx.sample({"table_case(mode,f,S,E,scale,recs)": list(CORPUS[0][:5]) + [[list(r) for r in CORPUS[0][5]]],
                 "impl_windows": canon_impl(W.impl_report(CORPUS[0]))[(1, -1, -1)]})
 
+    t = _stage(ctx, "corpus", t)
     # float confrontation: the grid of the property statement, completely
     grid = [k / 1000 for k in range(1001)]
     failing = confront(ctx, grid, "grid")
     report_failing(ctx, failing, "grid")
     ctx.exhaustive = False  # the grid is enumerated completely; the property's domain (all reals) is not
+    t = _stage(ctx, "float_grid", t)
     sub = grid if not ctx.quick else sorted(rng.sample(grid, 120) + [0.7, 0.8])
     scalar_crosscheck(ctx, sub)
     dy = [k / 1024 for k in range(1025)]
     exact_grid(ctx, dy if not ctx.quick else sorted(set(dy[::16] + rng.sample(dy, 60))))
+    t = _stage(ctx, "scalar_crosscheck_and_dyadic_grid", t)
     nrand = ctx.pick(300, 12000)
     rand = list(dict.fromkeys(NASTY + [rng.random() for _ in range(nrand)]
                               + [math.nextafter(k / 1000, rng.choice([0.0, 1.0])) for k in rng.sample(range(1, 1000), ctx.pick(40, 600))]))
@@ -517,6 +531,7 @@ def run(ctx):
     ctx.sample({"float_triple": {"f": 0.7, "gap": 10, "orderings": "both"},
                 "helpers(endT,endF,startT,startF)": [int(x[10]) for x in W.helper_offsets(0.7, 0, 20)[1:]]})
 
+    t = _stage(ctx, "random_doubles", t)
     # whole tables, exact factors: model vs implementation
     fs8 = [k / 8 for k in range(9)]
     core_fs = fs8 if not ctx.quick else sorted(rng.sample(fs8, 3) + [0.5])
@@ -529,11 +544,13 @@ def run(ctx):
     for c in cases[:2]:
         ctx.sample({"table_case": [c[0], c[1], c[2], c[3], c[4], [list(r) for r in c[5]][:8]]})
 
+    t = _stage(ctx, "tables_exact", t)
     # whole tables, arbitrary doubles: oracle on the implementation
     cases = [random_table(rng, float_factor(rng), big=(i % 25 == 0)) for i in range(n_rand)]
     for j in range(0, len(cases), 500):
         run_tables(ctx, cases[j:j + 500], exact=False, origin="random_float", style_rng=rng)
 
+    t = _stage(ctx, "tables_float", t)
     # whole path through the output manager down to the CSV file
     for i in range(ctx.pick(12, 150)):
         case = random_table(rng, float_factor(rng) if i % 2 else dyadic_factor(rng))
@@ -547,6 +564,7 @@ def run(ctx):
         oracle_table(ctx, case, viacsv, origin="manager_csv")
         ctx.traces += 1
         ctx.evaluations += 1
+    t = _stage(ctx, "manager_csv", t)
     ctx.assumptions.append("survey reports lie inside [start date, end date]; rates are finite (grid n/8 g/s); "
                            "factor in [0,1]; exact-rational theorems reach the float code through "
                            "C13_tiling_any_rounding, whose hypothesis is checked on the grid, not proved over doubles")
